@@ -4,7 +4,7 @@
    within NEAR of the source, inside [0, MAXVAL], equal to what the encoder stores back, and
    both sides make the same context update. NEAR = 0 gives exact reconstruction. *)
 From V Require Import Common.Base JpegLS.JlsParams JpegLS.JlsGolomb JpegLS.JlsRun JpegLS.JlsModel.
-From V Require Import JpegLS.JlsProofsParams JpegLS.JlsProofsGolomb.
+From V Require Import JpegLS.JlsProofsParams JpegLS.JlsProofsGolomb JpegLS.JlsProofsWriter.
 
 (* ---------- sign helpers ---------- *)
 
@@ -289,7 +289,7 @@ Theorem sample_near : forall P near store c qs ra rb rc x rest ops c' stored,
   exists x',
     regular_dec (jls_params P near) c qs ra rb rc (ops_bits ops ++ rest) = Some (x', c', rest) /\
     Z.abs (x' - x) <= near /\ 0 <= x' <= 2 ^ P - 1 /\
-    stored = (if store then x' else x).
+    stored = (if store then x' else x) /\ Forall wop_ok ops.
 Proof.
   intros P near store c qs ra rb rc x rest ops c' stored HP Hn Hx Henc.
   pose proof (jls_params_facts P near HP Hn) as F.
@@ -338,7 +338,8 @@ Proof.
     - unfold ec. rewrite GetErrorCorrection_knz by assumption. apply Z.lxor_0_l. }
   rewrite Herr. unfold sign. rewrite ApplySign_sgn. fold sg x'.
   split; [reflexivity|]. split; [lia|]. split; [lia|].
-  destruct store; reflexivity.
+  split; [destruct store; reflexivity|].
+  apply encode_mapped_ops_ok; lia.
 Qed.
 
 (* with NEAR = 0 the lossless package computes the same function as nearlossless *)
@@ -356,7 +357,8 @@ Qed.
 Theorem sample_exact : forall P store c qs ra rb rc x rest ops c' stored,
   2 <= P <= 16 -> 0 <= x <= 2 ^ P - 1 ->
   regular_enc PkLossless store (jls_params P 0) c qs ra rb rc x = (ops, c', stored) ->
-  regular_dec (jls_params P 0) c qs ra rb rc (ops_bits ops ++ rest) = Some (x, c', rest) /\ stored = x.
+  regular_dec (jls_params P 0) c qs ra rb rc (ops_bits ops ++ rest) = Some (x, c', rest) /\ stored = x /\
+  Forall wop_ok ops.
 Proof.
   intros P store c qs ra rb rc x rest ops c' stored HP Hx Henc.
   assert (Hn : 0 <= 0 <= near_max P).
@@ -364,6 +366,6 @@ Proof.
   rewrite regular_enc_lossless_near0 in Henc
     by (destruct (jls_params_facts P 0 HP Hn); assumption).
   destruct (sample_near P 0 store c qs ra rb rc x rest ops c' stored HP Hn Hx Henc)
-    as (x' & Hdec & Habs & _ & Hst).
-  assert (x' = x) by lia. subst x'. split; [exact Hdec|]. destruct store; assumption.
+    as (x' & Hdec & Habs & _ & Hst & Hok).
+  assert (x' = x) by lia. subst x'. split; [exact Hdec|]. split; [destruct store; assumption | exact Hok].
 Qed.
